@@ -69,6 +69,7 @@ def run(ctx):
     finally:
         join()
 
+    c11.settle_unreproduced(ctx)
     if ctx.divergences:
         vlib.log("DIVERGENCE property=%s total=%d (every Judge holds on these cases, the result differs from the Model; not a violation)" % (ctx.prop, ctx.divergences))
     ctx.exhaustive = True
